@@ -159,7 +159,10 @@ def _do_elem(ps, n):
     if n.k == "DeclStmt":
         for d in n.get("decls", []):
             if "init" in d and d["type"].get("tk") in ("int", "bool", "enum"):
-                ps.env[d["name"]] = _eval(ps, n.fn.nodes[d["init"]])
+                v_ = _eval(ps, n.fn.nodes[d["init"]])
+                if v_.kind == "unknown":
+                    v_ = AVal("sym", v=len(ps.events), node=n.fn.nodes[d["init"]])
+                ps.env[d["name"]] = v_
             elif d["type"].get("tk") in ("int", "bool", "enum"):
                 ps.env.pop(d["name"], None)
         return
@@ -216,7 +219,10 @@ def _do_elem(ps, n):
             else:
                 ps.env[name] = UNKNOWN
         elif op == "=":
-            ps.env[name] = _eval(ps, n.child(1))
+            v_ = _eval(ps, n.child(1))
+            if v_.kind == "unknown":
+                v_ = AVal("sym", v=len(ps.events), node=n.child(1))
+            ps.env[name] = v_
         elif op == "&=":
             cur = ps.env.get(name, UNKNOWN)
             r = _eval(ps, n.child(1))
@@ -268,7 +274,15 @@ def _branch(ps, cond, pol):
                     continue
                 if v.kind in ("nonzero", "ge") and v.truth() is not None:
                     continue
-                if v.kind == "unknown":
+                if v.kind == "sym" and v.node is not None and _is_condition(v.node) and _operands_untouched(ps, v):
+                    ps.env[a["decl"]["name"]] = AVal("const", 1 if apol else 0)
+                    ps.facts.append((atom, apol))
+                    ps.events.append(("branch", atom, apol))
+                    for a2, p2 in C.cond_facts(v.node, apol):
+                        ps.facts.append((a2, p2))
+                        ps.events.append(("branch", a2, p2))
+                    continue
+                if v.kind in ("unknown", "sym"):
                     if a.get("tk") == "bool":
                         ps.env[a["decl"]["name"]] = AVal("const", 1 if apol else 0)
                     elif a.get("tk") in ("int", "enum"):
@@ -314,6 +328,55 @@ def _branch(ps, cond, pol):
         if a.k == "CallExpr":
             _expand_helper(ps, a, apol)
     return True
+
+
+def _is_condition(n):
+    e = n.strip_all_casts()
+    while e.k == "ParenExpr":
+        e = e.child(0).strip_all_casts()
+    if any(x.k == "CallExpr" for x in e.walk()):
+        return False
+    return (e.k == "BinaryOperator" and e.get("op") in ("<", ">", "<=", ">=", "==", "!=", "&&", "||")) or \
+        (e.k == "UnaryOperator" and e.get("op") == "!")
+
+
+def _operands_untouched(ps, v):
+    ops = {x.get("path") for x in v.node.walk() if x.k in ("DeclRefExpr", "MemberExpr", "ArraySubscriptExpr") and x.get("path")}
+    for e in ps.events[v.v or 0:]:
+        if e[0] == "store":
+            t = C.store_target(e[1])
+            if t is not None and t.get("path") in ops:
+                return False
+        elif e[0] == "call":
+            for a in C.call_args(e[1]):
+                p = a.strip_all_casts().get("path") or ""
+                if p.startswith("&") and p[1:] in ops:
+                    return False
+    return True
+
+
+def resolve_text(ps, node, depth=0):
+    """source text (blanks removed) of an integer expression with locals replaced by the expressions they were last assigned
+    from on this path and conditional operators resolved by the decisions of this path"""
+    s = node.strip_all_casts()
+    while s.k == "ParenExpr":
+        s = s.child(0).strip_all_casts()
+    if s.k == "ConditionalOperator":
+        c = _eval(ps, s.child(0)).truth()
+        if c is None:
+            cn = s.child(0).strip_all_casts()
+            if cn.k == "DeclRefExpr":
+                v = ps.env.get(cn["decl"]["name"])
+                c = v.truth() if v is not None else None
+        if c is not None:
+            return resolve_text(ps, s.child(1) if c else s.child(2), depth)
+    if s.k == "DeclRefExpr" and s.get("decl", {}).get("kind") == "local" and depth < 4:
+        v = ps.env.get(s["decl"]["name"])
+        if v is not None and v.kind == "sym" and v.node is not None and _operands_untouched(ps, v):
+            return resolve_text(ps, v.node, depth + 1)
+    if s.k == "BinaryOperator" and s.get("op") in ("+", "-", "*"):
+        return "%s%s%s" % (resolve_text(ps, s.child(0), depth), s["op"], resolve_text(ps, s.child(1), depth))
+    return s.src.replace(" ", "")
 
 
 _HELPER_CACHE = {}
